@@ -273,4 +273,17 @@ def runR (c : Calc) (seqs : List (List Int)) : RunState :=
   if st.duped.isEmpty then st
   else { st with dists := st.dists.filter fun e => !(st.dupes.contains e.1.1 || st.dupes.contains e.1.2) }
 
+/-- the whole of `calc.run(); calc.get_pairwise_distances()` for the CURRENT code (repo commit 259ec35c1:
+the duplicate shortcut requires `numpy.array_equal(s1, s2)`) -/
+def distanceMatrixR (c : Calc) (seqs : List (List Int)) : List (List Stat) :=
+  let d := expand seqs.length (runR c seqs)
+  (List.range seqs.length).map fun a => (List.range seqs.length).map fun b => cell d a b
+
+/-- what the CURRENT code reports for one pair taken alone: the estimator when a difference was observed,
+otherwise 0 — or "invalid" (`None`) when the two sequences share no canonical column and are not the same array -/
+def directR (c : Calc) (s1 s2 : List Int) : Stat :=
+  if hasOffDiag (countsOf s1 s2) then stat c (countsOf s1 s2)
+  else if s1 == s2 then .zero
+  else if 0 < total (countsOf s1 s2) then .zero else .invalid
+
 end CogentModel.Distance
